@@ -1,2 +1,224 @@
-(* PEXEC -- placeholder while the proofs are being built *)
-From DA Require Import Model.PandasExec.
+(* PEXEC -- the Pandas executor of data_algebra, transcribed step by step, refines the reference semantics.
+
+   Model/PandasExec.v (`pexec_gen srt q p e`, `pexec` = the same with the stable sort) transcribes every `_*_step` of
+   /repo/data_algebra/pandas_base.py over the hand models of the pandas primitives it calls (Model/PdPrim.v).  The trusted
+   boundary of "Pandas computes sem_gen fl_pandas" moves from the whole executor to those primitives, to scalar expression
+   evaluation (Sem.eval_expr fl_pandas) and to the window / aggregate functions (Sem.win_fn / agg_fn fl_pandas).
+
+   srt is the sorting routine behind DataFrame.sort_values: the theorems hold for EVERY routine that returns a sorted permutation
+   (sorter_ok) -- pandas' single-key sort is not stable.  q records whether table_is_keyed_by_columns groups with dropna=True.
+   wf_op_b p is what the builders guarantee (Model/PandasExec.v); total_orders / exact_group_keys are C18's premises (a window
+   running an order-sensitive function orders each partition strictly, a limited order_rows is total, group keys have one
+   representation per value), decidable by Model/PermGuard.perm_guard_b. *)
+From Coq Require Import List Bool Arith ZArith QArith String Permutation.
+Import ListNotations.
+From DA Require Import Base.PyRT Base.Val Model.Sem Model.PdPrim Model.PandasExec Model.PermGuard
+  Proofs.SemBasicP Proofs.SemOrderP Proofs.PermP3 Proofs.PermP4 Proofs.ComposeP5
+  Proofs.PandasExecP1 Proofs.PandasExecP2 Proofs.PandasExecP3 Proofs.PandasExecP4 Proofs.PandasExecP5 Proofs.PandasExecP6
+  Proofs.PandasExecP7 Proofs.PandasExecP8 Proofs.PandasExecEx.
+Local Open Scope string_scope.
+Local Open Scope list_scope.
+
+(* ---------------------------------------------------------------- the pipeline theorem (all eleven step kinds) *)
+(* Whenever the transcribed executor returns a frame t, the reference semantics under the Pandas conventions is defined, t has
+   exactly its columns (as a set; they are pairwise distinct), and the rows of t, read BY NAME in the reference column order, are a
+   permutation of the reference rows.  Column ORDER and row ORDER are not claimed: they differ (see the _refuted witnesses). *)
+Theorem PEXEC_refines_sem : forall (srt : sorter) (q : pquirks) (p : op) (e : env) (t : table),
+  sorter_ok srt -> wf_op_b p = true -> total_orders fl_pandas p e -> exact_group_keys fl_pandas p e ->
+  pexec_gen srt q p e = Some t ->
+  exists t', sem_gen fl_pandas p e = Some t' /\ (forall c, In c (cols t) <-> In c (cols t')) /\ NoDup (cols t') /\
+             Permutation (rows (sem_select_cols (cols t') t)) (rows t').
+Proof. exact pexec_refines_sem_cells. Qed.
+Print Assumptions PEXEC_refines_sem.
+
+(* the same for the executor the correspondence runs (stable sort), with the premises as the computable check of Model/PermGuard.v *)
+Theorem PEXEC_refines_sem_checked : forall (q : pquirks) (p : op) (e : env) (t : table),
+  wf_op_b p = true -> perm_guard_b fl_pandas p e = true -> pexec q p e = Some t ->
+  exists t', sem_gen fl_pandas p e = Some t' /\ (forall c, In c (cols t) <-> In c (cols t')) /\ NoDup (cols t') /\
+             Permutation (rows (sem_select_cols (cols t') t)) (rows t').
+Proof.
+  exact (fun q p e t W G H => pexec_refines_sem_cells stable_sorter q p e t stable_sorter_ok W
+           (proj1 (perm_guard_b_sound fl_pandas p e G)) (proj2 (perm_guard_b_sound fl_pandas p e G)) H).
+Qed.
+Print Assumptions PEXEC_refines_sem_checked.
+
+(* the refinement relation itself (row-for-row equal cells against a table with the reference columns and a permutation of the
+   reference rows), as used by the induction; coordinators can chain it with `refines_trans` *)
+Theorem PEXEC_refines_relation : forall (srt : sorter) (q : pquirks) (p : op) (e : env) (t : table),
+  sorter_ok srt -> wf_op_b p = true -> total_orders fl_pandas p e -> exact_group_keys fl_pandas p e ->
+  pexec_gen srt q p e = Some t ->
+  exists t', sem_gen fl_pandas p e = Some t' /\ refines t t' /\ width_ok t.
+Proof. exact pexec_refines_sem. Qed.
+Print Assumptions PEXEC_refines_relation.
+
+(* ---------------------------------------------------------------- one refinement lemma per step kind *)
+(* steps that are the reference operator itself *)
+Theorem PEXEC_table_step_exact : forall cs df u, px_table cs df = Some u -> u = sem_select_cols cs df.
+Proof. exact px_table_exact. Qed.
+Print Assumptions PEXEC_table_step_exact.
+Theorem PEXEC_select_rows_step_exact : forall x t u, px_select_rows x t = Some u -> u = sem_select_rows fl_pandas x t.
+Proof. exact px_select_rows_exact. Qed.
+Print Assumptions PEXEC_select_rows_step_exact.
+Theorem PEXEC_select_columns_step_exact : forall cs t u, px_select_cols cs t = Some u -> u = sem_select_cols cs t.
+Proof. exact px_select_cols_exact. Qed.
+Print Assumptions PEXEC_select_columns_step_exact.
+Theorem PEXEC_drop_columns_step_exact : forall ds t u, px_drop_cols ds t = Some u -> u = sem_drop_cols ds t.
+Proof. exact px_drop_cols_exact. Qed.
+Print Assumptions PEXEC_drop_columns_step_exact.
+Theorem PEXEC_rename_columns_step_exact : forall m t u, px_rename m t = Some u -> u = sem_rename m t.
+Proof. exact px_rename_exact. Qed.
+Print Assumptions PEXEC_rename_columns_step_exact.
+Theorem PEXEC_map_columns_step_exact : forall m dels t u,
+  NoDup (cols (sem_rename m t)) -> width_ok t -> px_map_cols m dels t = Some u -> u = sem_drop_cols dels (sem_rename m t).
+Proof. exact px_map_cols_exact. Qed.
+Print Assumptions PEXEC_map_columns_step_exact.
+(* order_rows: with the stable sort it IS sem_order; with any sorting routine the same columns and a permutation of the reference rows,
+   the same list as soon as the order is total on the data *)
+Theorem PEXEC_order_rows_step_exact : forall cs rev lim t u,
+  subset cs (cols t) = true -> px_order stable_sorter cs rev lim t = Some u -> u = sem_order fl_pandas cs rev lim t.
+Proof. exact px_order_exact. Qed.
+Print Assumptions PEXEC_order_rows_step_exact.
+Theorem PEXEC_order_rows_step_refines : forall srt cs rev lim t u, sorter_ok srt ->
+  (lim <> None -> total_on fl_pandas (cols t) (map (fun c => (c, mem c rev)) cs) (rows t)) ->
+  px_order srt cs rev lim t = Some u ->
+  cols u = cols (sem_order fl_pandas cs rev lim t) /\ Permutation (rows u) (rows (sem_order fl_pandas cs rev lim t)).
+Proof. exact (fun srt cs rev lim t u So => px_order_refines srt So cs rev lim t u). Qed.
+Print Assumptions PEXEC_order_rows_step_refines.
+(* concat_rows (id column, an empty side returned as it is): the reference table up to column order *)
+Theorem PEXEC_concat_rows_step_refines : forall idc an bn l r u,
+  (forall c, In c (cols l) <-> In c (cols r)) -> (forall c, idc = Some c -> ~ In c (cols l)) -> width_ok l -> width_ok r ->
+  px_concat idc an bn l r = Some u -> tab_eqv u (sem_concat idc an bn l r).
+Proof. exact px_concat_eqv. Qed.
+Print Assumptions PEXEC_concat_rows_step_refines.
+(* non-windowed extend: both column-copy paths of add_data_frame_columns_to_data_frame_ *)
+Theorem PEXEC_extend_step_refines : forall ops t u,
+  (0 < nrows t)%nat -> ops <> [] -> NoDup (map fst ops) -> width_ok t ->
+  px_extend_plain ops t = Some u -> tab_eqv u (sem_extend fl_pandas ops t) /\ width_ok u.
+Proof. exact px_extend_plain_eqv. Qed.
+Print Assumptions PEXEC_extend_step_refines.
+(* windowed extend: the real algorithm (sub-frame, original index, sort by partition + order + value columns, group, transform, sort
+   back, copy out), for every sorting routine *)
+Theorem PEXEC_window_step_refines : forall srt ops w t x cs0,
+  sorter_ok srt -> width_ok t -> (forall c, In c (cols t) <-> In c cs0) -> (0 < nrows t)%nat ->
+  nodup_names (map fst ops) = true -> ops <> [] ->
+  disjointb (map fst ops) (w_part w ++ w_order w) = true -> subset (w_part w ++ w_order w) cs0 = true ->
+  nodup_names (w_part w ++ w_order w) = true ->
+  forallb (win_ok_b cs0 (map fst ops)) ops = true ->
+  px_extend_windowed srt ops w t = Some x ->
+  width_ok x /\ (forall c, In c (cols x) <-> In c (ext_cols (cols t) (map fst ops))) /\
+  ((ops_order_sensitive ops = true -> window_total fl_pandas (cols t) w (rows t)) -> tab_eqv x (sem_wextend fl_pandas ops w t)).
+Proof. exact px_extend_windowed_eqv. Qed.
+Print Assumptions PEXEC_window_step_refines.
+(* project: scratch column of ones, stand-ins for constants, groupby(dropna=False), reset_index, empty-input cases, keyed check *)
+Theorem PEXEC_project_step_refines : forall q ops gb t u,
+  width_ok t -> (forall g, In g gb -> In g (cols t)) -> (forall ke, In ke ops -> agg_ok (cols t) (snd ke)) ->
+  (ops <> [] \/ gb <> []) ->
+  px_project q ops gb t = Some u -> refines u (sem_project fl_pandas ops gb t) /\ width_ok u.
+Proof. exact px_project_refines. Qed.
+Print Assumptions PEXEC_project_step_refines.
+(* natural_join: suffix, scratch key for an empty `on` (also CROSS), merge, coalescing loop, dropped scratch columns *)
+Theorem PEXEC_join_step_refines : forall declared on_a on_b jt l r x,
+  width_ok l -> width_ok r ->
+  (forall c, In c on_a -> In c (cols l)) -> (forall c, In c on_b -> In c (cols r)) -> List.length on_a = List.length on_b ->
+  (forall a b, In (a, b) (combine on_a on_b) -> In a (cols r) -> a = b) ->
+  (forall c, In c declared <-> In c (cols l ++ filter (fun c => negb (mem c (cols l))) (cols r))) ->
+  px_join declared on_a on_b jt l r = Some x -> refines x (sem_join true on_a on_b jt l r) /\ width_ok x.
+Proof. exact px_join_refines. Qed.
+Print Assumptions PEXEC_join_step_refines.
+
+(* ---------------------------------------------------------------- no scratch column survives *)
+(* no premise on the data: whatever the executor returns has exactly the declared columns (every scratch column it added is gone) *)
+Theorem PEXEC_no_scratch_column_survives : forall (srt : sorter) (q : pquirks) (p : op) (e : env) (t : table),
+  sorter_ok srt -> wf_op_b p = true -> pexec_gen srt q p e = Some t ->
+  (forall c, In c (cols t) <-> In c (column_names p)) /\ width_ok t.
+Proof. exact (fun srt q p e t So W H => pexec_shape srt q p So e t W H). Qed.
+Print Assumptions PEXEC_no_scratch_column_survives.
+(* the premise join_keys_clean inside wf_op_b is needed: a left key that is also a non-key column of the right table, paired with a
+   differently named right key, leaves `<key>_tmp_right_col` in the result (listed finding C16-pandas-overlap-leftover-column) *)
+Theorem PEXEC_scratch_column_survives_refuted :
+  exists p e t, pexec q_code p e = Some t /\ ~ (forall c, In c (cols t) <-> In c (column_names p)).
+Proof. exact scratch_column_survives_refuted. Qed.
+Print Assumptions PEXEC_scratch_column_survives_refuted.
+
+(* ---------------------------------------------------------------- the chosen scratch names never capture a user column *)
+(* since /repo c06ea4b: _unused_column_name returns none of the names in use, the join suffix makes no suffixed shared name a name in
+   use; consequently the scratch columns of the three steps are new names (and the stand-ins for constants too) *)
+Theorem PEXEC_scratch_names_never_capture :
+  (forall base taken, ~ In (unused_column_name base taken) taken) /\
+  (forall common names c, In c common -> ~ In (sapp c (right_suffix common names)) names) /\
+  (forall (ops : list (string * expr)) (res : table),
+     let names0 := set_union (cols res) (map fst ops) in
+     let standin := unused_column_name base_standin names0 in
+     let orig := unused_column_name base_orig_index (names0 ++ [standin]) in
+     (~ In standin (cols res) /\ ~ In standin (map fst ops)) /\ (~ In orig (cols res) /\ ~ In orig (map fst ops)) /\ orig <> standin) /\
+  (forall st ke st', wcollect st ke = Some st' ->
+     ws_temps st' = ws_temps st \/ exists v name, ws_temps st' = ws_temps st ++ [(v, name)] /\ ~ In name (ws_names st) /\ ws_names st' = ws_names st ++ [name]) /\
+  (forall (ops : list (string * expr)) (res : table),
+     let temp := unused_column_name base_project_temp (set_union (cols res) (map fst ops)) in ~ In temp (cols res) /\ ~ In temp (map fst ops)) /\
+  (forall st ke st', pcollect st ke = Some st' ->
+     ps_temps st' = ps_temps st \/ exists v name, ps_temps st' = ps_temps st ++ [(v, name)] /\ ~ In name (ps_names st) /\ ps_names st' = ps_names st ++ [name]) /\
+  (forall (left right : table),
+     let names := set_union (cols left) (cols right) in
+     let common := set_inter (cols left) (cols right) in
+     (forall c, In c common -> ~ In (sapp c (right_suffix common names)) (cols left) /\ ~ In (sapp c (right_suffix common names)) (cols right)) /\
+     ~ In (unused_column_name base_merge_col names) (cols left) /\ ~ In (unused_column_name base_merge_col names) (cols right)).
+Proof.
+  exact (conj unused_column_name_fresh (conj right_suffix_fresh (conj extend_scratch_fresh (conj wcollect_fresh
+        (conj project_scratch_fresh (conj pcollect_fresh join_scratch_fresh)))))).
+Qed.
+Print Assumptions PEXEC_scratch_names_never_capture.
+
+(* ---------------------------------------------------------------- join: shared columns are COALESCE(left, right) *)
+Theorem PEXEC_join_coalesce : forall declared on_a on_b jt l r x,
+  width_ok l -> width_ok r ->
+  (forall c, In c on_a -> In c (cols l)) -> (forall c, In c on_b -> In c (cols r)) -> List.length on_a = List.length on_b ->
+  (forall a b, In (a, b) (combine on_a on_b) -> In a (cols r) -> a = b) ->
+  (forall c, In c declared <-> In c (cols l ++ filter (fun c => negb (mem c (cols l))) (cols r))) ->
+  px_join declared on_a on_b jt l r = Some x ->
+  forall row, In row (rows x) ->
+    exists p, In p (sem_pairs (key_of (cols l) on_a) (key_of (cols r) on_b) (how_of jt) (rows l) (rows r)) /\
+              (forall ra, fst p = Some ra -> In ra (rows l)) /\ (forall rb, snd p = Some rb -> In rb (rows r)) /\
+              forall c, In c (cols l) \/ In c (cols r) ->
+                get (cols x) row c
+                = (let va := match fst p with Some r0 => if mem c (cols l) then get (cols l) r0 c else VNull | None => VNull end in
+                   let vb := match snd p with Some r0 => if mem c (cols r) then get (cols r) r0 c else VNull | None => VNull end in
+                   if is_null va then vb else va).
+Proof. exact join_coalesce. Qed.
+Print Assumptions PEXEC_join_coalesce.
+
+(* ---------------------------------------------------------------- where the transcription differs from sem_gen fl_pandas *)
+(* findings about Model/Sem.v as a MODEL of the Pandas executor (its correspondence compares rows as a multiset and columns as a set,
+   which is all it is right about): *)
+(* 1. row order: pandas lists the groups of a project in sorted key order (and interleaves unmatched rows of a left / right join) *)
+Theorem PEXEC_exact_row_order_refuted :
+  exists p e t t', wf_op_b p = true /\ perm_guard_b fl_pandas p e = true /\ pexec q_code p e = Some t /\ sem_gen fl_pandas p e = Some t' /\
+                   cols t = cols t' /\ rows t <> rows t'.
+Proof. exact exact_row_order_refuted. Qed.
+Print Assumptions PEXEC_exact_row_order_refuted.
+(* 2. column order: an extend assigning more than half as many columns as the frame has moves an overwritten column to the end *)
+Theorem PEXEC_exact_column_order_refuted :
+  exists p e t t', wf_op_b p = true /\ perm_guard_b fl_pandas p e = true /\ pexec q_code p e = Some t /\ sem_gen fl_pandas p e = Some t' /\ cols t <> cols t'.
+Proof. exact exact_column_order_refuted. Qed.
+Print Assumptions PEXEC_exact_column_order_refuted.
+(* 3. the window premise is needed: rows tying on the order columns are taken in the order of their VALUE columns by the executor
+      (it sorts the sub-frame by partition + order + value columns), in frame order by Sem.v *)
+Theorem PEXEC_window_order_premise_refuted :
+  exists p e t t', wf_op_b p = true /\ exact_keys_b fl_pandas p e = true /\ total_orders_b fl_pandas p e = false /\
+                   pexec q_code p e = Some t /\ sem_gen fl_pandas p e = Some t' /\ ~ refines t t'.
+Proof. exact window_premise_refuted. Qed.
+Print Assumptions PEXEC_window_order_premise_refuted.
+(* a finding about the CODE: the executor raises where the semantics is defined (every group key of a project contains a null);
+   with table_is_keyed_by_columns grouping with dropna=False it returns the reference table *)
+Theorem PEXEC_project_keyed_check_raises_refuted :
+  exists p e t', wf_op_b p = true /\ perm_guard_b fl_pandas p e = true /\ sem_gen fl_pandas p e = Some t' /\
+                 pexec q_code p e = None /\ pexec (mkq false) p e = Some t'.
+Proof. exact project_keyed_check_refuted. Qed.
+Print Assumptions PEXEC_project_keyed_check_raises_refuted.
+
+(* ---------------------------------------------------------------- the premises are satisfiable *)
+Example PEXEC_premises_satisfiable :
+  wf_op_b ex_all = true /\ perm_guard_b fl_pandas ex_all ex_all_env = true /\
+  pexec q_code ex_all ex_all_env = Some (mktable ["k"; "s"; "m"; "z"] [[n 2; n 7; n 3; n 1]; [n 1; n 8; n 4; n 1]]).
+Proof. exact ex_all_premises. Qed.
+Example PEXEC_sorter_exists : sorter_ok stable_sorter.
+Proof. exact stable_sorter_ok. Qed.
